@@ -41,9 +41,11 @@ func main() {
 	case "replay":
 		os.Exit(cmdReplay(os.Args[2:]))
 	case "build":
-		if _, err := build(false); err != nil {
-			fmt.Fprintln(os.Stderr, err)
-			os.Exit(2)
+		for _, race := range []bool{false, true} {
+			if _, err := build(race); err != nil {
+				fmt.Fprintln(os.Stderr, err)
+				os.Exit(2)
+			}
 		}
 	case "list":
 		ids := []string{}
@@ -202,9 +204,12 @@ func runReplay(bin, path string, timeout time.Duration) (*replayOut, procResult)
 	defer os.Remove(tmp)
 	abs, _ := filepath.Abs(path)
 	res := runProc(bin, []string{"-test.run", "^TestReplay$", "-test.timeout", "0", "-test.count", "1"},
-		[]string{"VERIF_REPLAY=" + abs, "VERIF_REPLAY_OUT=" + tmp}, timeout)
+		[]string{"VERIF_REPLAY=" + abs, "VERIF_REPLAY_OUT=" + tmp, "GORACE=halt_on_error=1 exitcode=66"}, timeout)
 	b, err := os.ReadFile(tmp)
 	if err != nil {
+		if res.exit == 66 || strings.Contains(res.out, "WARNING: DATA RACE") {
+			return &replayOut{Violated: true, Clause: "data-race", Message: raceSummary(res.out)}, res
+		}
 		return nil, res
 	}
 	var out replayOut
@@ -374,6 +379,7 @@ func cmdCheck(args []string) int {
 	type shardOut struct {
 		res   procResult
 		stats *harness.ShardStats
+		race  *harness.Replay
 	}
 	outs := make([]shardOut, shards)
 	var wg sync.WaitGroup
@@ -400,6 +406,11 @@ func cmdCheck(args []string) int {
 					"VERIF_STATS=" + sfile, "VERIF_TIER=" + *tier, "VERIF_SHARD=" + strconv.Itoa(i),
 					"VERIF_EXCLUDE=" + strings.Join(exclude, ","), "VERIF_ROOT=" + root,
 				}
+				curCase := filepath.Join(statsDir, fmt.Sprintf("%s-%d-%d.case.json", id, os.Getpid(), i))
+				raceLog := filepath.Join(statsDir, fmt.Sprintf("%s-%d-%d.race", id, os.Getpid(), i))
+				if spec.Race {
+					env = append(env, "VERIF_CURCASE="+curCase, "GORACE=halt_on_error=1 exitcode=66 log_path="+raceLog)
+				}
 				timeout := 40 * time.Minute
 				if *tier == "thorough" {
 					timeout = 6 * time.Hour
@@ -413,7 +424,27 @@ func cmdCheck(args []string) int {
 					}
 				}
 				os.Remove(sfile)
-				outs[i] = shardOut{res: res, stats: st}
+				so := shardOut{res: res, stats: st}
+				if spec.Race && res.exit == 66 {
+					// the race detector aborted the process: attribute to the case that was running
+					logs, _ := filepath.Glob(raceLog + "*")
+					report := ""
+					for _, l := range logs {
+						if b, err := os.ReadFile(l); err == nil {
+							report += string(b)
+						}
+						os.Remove(l)
+					}
+					if rp, err := harness.LoadReplay(curCase); err == nil {
+						rp.Clause = "data-race"
+						rp.Message = raceSummary(report)
+						so.race = rp
+					} else {
+						so.race = &harness.Replay{Property: id, Kind: "none", Clause: "data-race", Message: raceSummary(report), Program: json.RawMessage("null")}
+					}
+				}
+				os.Remove(curCase)
+				outs[i] = so
 			}(i)
 		}
 		wg.Wait()
@@ -425,9 +456,15 @@ func cmdCheck(args []string) int {
 	extraDistinct := 0
 	inconclusive := 0
 	var failures []*harness.Replay
+	noMinimize := map[*harness.Replay]bool{}
 	for i, o := range outs {
 		if total == 0 {
 			break
+		}
+		if o.race != nil {
+			failures = append(failures, o.race)
+			noMinimize[o.race] = true
+			continue
 		}
 		if o.stats == nil {
 			inconclusive++
@@ -501,8 +538,10 @@ func cmdCheck(args []string) int {
 			fmt.Println("cannot save replay:", err)
 			return 2
 		}
-		if min := minimize(plainBin, path, f.Clause); min != "" {
-			path = min
+		if !noMinimize[f] {
+			if min := minimize(plainBin, path, f.Clause); min != "" {
+				path = min
+			}
 		}
 		if seenFail[path] {
 			continue
@@ -560,6 +599,33 @@ func cmdCheck(args []string) int {
 		return 2
 	}
 	return 0
+}
+
+// raceSummary extracts the access sites of the first race report.
+func raceSummary(report string) string {
+	var out []string
+	lines := strings.Split(report, "\n")
+	for i, l := range lines {
+		t := strings.TrimSpace(l)
+		if strings.HasPrefix(t, "Read at") || strings.HasPrefix(t, "Write at") || strings.HasPrefix(t, "Previous read at") || strings.HasPrefix(t, "Previous write at") {
+			site := ""
+			for j := i + 1; j < len(lines) && j < i+6; j++ {
+				u := strings.TrimSpace(lines[j])
+				if strings.Contains(u, ".go:") {
+					site = u
+					break
+				}
+			}
+			out = append(out, t[:strings.Index(t, " at")]+" "+site)
+		}
+		if len(out) >= 2 {
+			break
+		}
+	}
+	if len(out) == 0 {
+		return "race detector aborted the run (no report captured)"
+	}
+	return "data race: " + strings.Join(out, " / ")
 }
 
 // signature reduces a violation message to its stable part.
